@@ -29,7 +29,7 @@ TIERS = {
     "thorough": [dict(Sizes={4, 8, 16, 32}, WrapUse=ALLW, ChainUse=ALLC, BreakUse={1, 2, 3, 4, 5, 6}, Pairs=False, ChainScale=8, PatternWraps={1, 2, 4, 6}, BlockUse=ALLB, Prefixes={0}),
                  dict(Sizes={3, 6, 12}, WrapUse={1, 2, 4, 5, 6, 7, 8, 9, 10, 11, 12, 15, 20, 25, 28}, ChainUse=set(), BreakUse={1, 3, 5, 6}, Pairs=True, ChainScale=1, PatternWraps={1, 2, 4, 6}, **NOB),
                  dict(Sizes={4, 8, 16}, WrapUse={1, 2, 4, 6, 8, 11}, ChainUse=set(), BreakUse={1, 5}, Pairs=False, ChainScale=1, PatternWraps=set(), BlockUse=ALLB, Prefixes={3000, 6000}),
-                 dict(Sizes={50, 100, 200, 400, 800}, WrapUse={1, 2, 3, 4, 5, 6, 7, 11}, ChainUse=set(), BreakUse={1, 6}, Pairs=False, ChainScale=1, PatternWraps=set(), BlockUse={1, 4, 7}, Prefixes={0}, _reclimit=1000)],
+                 dict(Sizes={50, 100, 200, 400}, WrapUse={1, 2, 3, 4, 5, 6, 7, 11}, ChainUse=set(), BreakUse={1, 6}, Pairs=False, ChainScale=1, PatternWraps=set(), BlockUse={1, 7}, Prefixes={0}, _reclimit=1000)],
 }
 
 
@@ -58,7 +58,7 @@ def check(run: Run) -> None:
             # the series was cut because the work budget / time limit was exceeded: record that as an unbounded point
             pts.append([ns[len(pts)] if len(pts) < len(ns) else ns[-1] * 2, 1, 2_000_000_000])
         run.count_case(str(k))
-        traces.append({"id": i, "pts": pts})
+        traces.append({"id": i, "pts": pts, "outcomes": [p["outcome"] for p in r["series"]]})
         if i % 97 == 0:
             run.sample({"family": k, "series": pts, "text_at_smallest_size": fam[k][ns[0]][:120]})
     cfg = "CONSTANTS\n EpsPct = %d\n C = %d\n K = %d\n" % (LAW["EpsPct"], LAW["C"], LAW["K"])
@@ -66,7 +66,8 @@ def check(run: Run) -> None:
     for i, (clause, kk) in sorted(verdicts.items()):
         if clause != "ok":
             k = keys[i]
-            run.violation({"family": list(k), "smallest": fam[k][sorted(fam[k])[0]]}, clause, {"series": traces[i]["pts"], "step": kk}, key="fam:" + "/".join(k))
+            run.violation({"family": list(k), "smallest": fam[k][sorted(fam[k])[0]], "outcomes": traces[i]["outcomes"]}, clause,
+                          {"series": traces[i]["pts"], "step": kk}, key="fam:" + "/".join(k))
     run.extra["families"] = len(keys)
     run.extra["law"] = LAW
     run.rule = ("families = nesting constructors (alone, pairwise alternating in thorough, as expressions and as case patterns) and chains, each valid "
